@@ -90,7 +90,9 @@ def signatures(case, cls, det):
     c = case.split()
     site = c[7] if len(c) > 7 else "-"
     if cls == "leak":
-        return [{"class": "leak", "allocated_in": w} for w in det.get("allocated_in", ["unknown"])]
+        # provisional key (the stream runs with ASan's fast frame-pointer unwinder, whose allocation stacks are not reliable):
+        # refined per group by re-running one case with the slow unwinder, see refine_leak()
+        return [{"class": "leak", "op": c[1], "site": short(site)}]
     if cls == "interrupt-swallowed" and site.endswith("@OverlayNGRobust"):
         return [{"class": cls, "via": "OverlayNGRobust::Overlay catch(std::runtime_error)"}]
     if cls in ("poll-count-changed", "callback-changed-result"):
@@ -151,13 +153,20 @@ def count_sites_in_source():
     return n, files
 
 
-def run_one(exe, case):
+def refine_leak(exe, case):
+    """re-run one leaking case with the accurate (slow) unwinder -> list of allocating functions, [] if it does not leak again"""
+    impl, _ = run_one(exe, case, env=dict(ASAN_ENV, ASAN_OPTIONS=ASAN_ENV["ASAN_OPTIONS"] + ":fast_unwind_on_malloc=0"))
+    m = re.search(r"leak=1:(\S+)", impl)
+    return sorted({short(w) for w in m.group(1).split(",") if w}) if m else []
+
+
+def run_one(exe, case, env=None):
     """replay one case on implementation and model -> (impl, model)"""
     p = os.path.join(verif.BUILD, "work", "c14-one-%d.txt" % os.getpid())
     os.makedirs(os.path.dirname(p), exist_ok=True)
     with open(p, "w") as f:
         f.write(case + "\n")
-    rc, out = verif.sh([exe, "replay", p], timeout=600, env=ASAN_ENV)
+    rc, out = verif.sh([exe, "replay", p], timeout=600, env=env or ASAN_ENV)
     lines = [l for l in out.strip().split("\n") if l and not l.startswith("note:")]
     impl = lines[-1] if lines else "harness-exit-%d" % rc
     if rc != 0:
@@ -244,7 +253,9 @@ def run(ctx):
                                     "N_buckets_all": {k[5:]: v for k, v in st.items() if k.startswith("Nall.")},
                                     "N_buckets_per_op": per_op_N,
                                     "polls_total_in_clean_runs": st.get("polls_total", 0),
-                                    "poll_sites_reached": len(sites), "poll_sites_in_source": n_src, "poll_site_files": n_files,
+                                    "poll_return_addresses_reached": len(sites),
+                                    "poll_functions_reached": len({re.sub(r"\+0x[0-9a-f]+$", "", x) for x in sites}),
+                                    "poll_macro_occurrences_in_src": n_src, "poll_site_files": n_files,
                                     "poll_sites": sites,
                                     "skipped": {k: v for k, v in st.items() if k.startswith("skip_")},
                                     "lsan_checks": st.get("lsan_checks", 0), "heap_grew_cases": st.get("heap_grew_cases", 0)}}
@@ -274,6 +285,17 @@ def run(ctx):
             g["ops"].add(c[1])
             if len(c) > 7:
                 g["sites"].add(short(c[7]))
+    # leaks: replace the provisional (op, site) key by the allocating function found with the accurate unwinder
+    for key in [k for k, g in groups.items() if g["sig"]["class"] == "leak"]:
+        g = groups.pop(key)
+        case = min(g["cases"], key=lambda t: (int(t[0].split()[3]), int(t[0].split()[4]), int(t[0].split()[6])))[0]
+        fns = refine_leak(exe, case)
+        for sig in ([{"class": "leak", "allocated_in": f} for f in fns] or [g["sig"]]):
+            k2 = json.dumps(sig, sort_keys=True)
+            g2 = groups.setdefault(k2, {"sig": sig, "cases": [], "ops": set(), "sites": set()})
+            g2["cases"] += g["cases"]
+            g2["ops"] |= g["ops"]
+            g2["sites"] |= g["sites"]
     corr["ops"]["disagreement_classes"] = {k: len(g["cases"]) for k, g in groups.items()}
     for key, g in sorted(groups.items()):
         # smallest example: size, then N, then k
